@@ -360,12 +360,14 @@ def r6(ctx, cfg):
         # over the three parts, concat)
         from vlib import pipeline
         # the key is what is fed last into the hash: Sha256::new().chain(module).chain(KEY)
-        chains = [(b0, t0) for b0, t0 in f.calls() if t0["callee"]["name"] in ("chain", "chain_update", "update")]
+        # the key is what is fed last into the hash: `Sha256::new().chain(module).chain(KEY)` or `hasher.update(module);
+        # hasher.update(KEY)` - the feeding calls in execution order
+        feeds = [(b0, t0) for b0, t0 in f.calls() if t0["callee"]["name"] in ("chain", "chain_update", "update") and len(t0["args"]) == 2]
+        cf0 = cfg_of(f)
+        feeds.sort(key=lambda x: sum(1 for y in feeds if cf0.dominates(y[0], x[0])))
         parts = None
-        for b0, t0 in chains:
-            a0_ = P.call_args(f, t0, b0)
-            if len(a0_) == 2 and contains(a0_[0], lambda x: x[0] == "call" and x[1].rsplit("::", 1)[-1] in ("chain", "chain_update", "update")):
-                parts = pipeline.byte_parts(P, F, f, a0_[1])
+        if len(feeds) == 2:
+            parts = pipeline.byte_parts(P, F, f, P.call_args(f, feeds[-1][1], feeds[-1][0])[1])
         ok = parts is not None and len(parts) == 3
         d = "?"
         if ok:
@@ -393,7 +395,7 @@ def r6(ctx, cfg):
             ok = any(c[0] == "variant_in" and c[2] == ("Some",) and contains(c[1], lambda x: x[0] == "param" and x[2] == "salt") for e, c in conds)
             # .. and by nothing else about the salt (an empty salt is a salt: instantiate2_address rejects it, the classic
             # address must not be used for it)
-            extra = [c[1] for e, c in conds if c[0] == "bool" and any(contains(x, lambda y: y[0] == "param" and y[2] == "salt") for x in c[1][1])]
+            extra = [c[1] for e, c in conds if c[0] == "bool" and not q.is_derived(c) and any(contains(x, lambda y: y[0] == "param" and y[2] == "salt") for x in c[1][1])]
             ctx.ob(R, key, "salted-iff-salt-given", ok and not extra, "predictable_contract_address is not selected by `salt` being Some alone (%s)" % [(e1[0], e1[2]) for e1 in extra], fn=f, line=t["line"],
                    sample="under Some(salt)")
         cc = q.calls(f, ("addresses::AddressGenerator", "contract_address"))
@@ -414,7 +416,7 @@ def r6(ctx, cfg):
         if len(cc) == 1:
             cconds = q.dominating_conditions(P, f, cc[0][0])
             none_only = any(c[0] == "variant_in" and c[2] == ("None",) and contains(c[1], lambda x: x[0] == "param" and x[2] == "salt") for e, c in cconds) and \
-                not any(c[0] == "bool" and any(contains(x, lambda y: y[0] == "param" and y[2] == "salt") for x in c[1][1]) for e, c in cconds)
+                not any(c[0] == "bool" and not q.is_derived(c) and any(contains(x, lambda y: y[0] == "param" and y[2] == "salt") for x in c[1][1]) for e, c in cconds)
             ctx.ob(R, key, "classic-iff-no-salt", none_only, "the classic (code id, instance) address is used although a salt was given (it must be selected by `salt` being None)", fn=f,
                    line=cc[0][1]["line"], sample="under None")
         ctx.ob(R, key, "classic(code_id, instance_count(storage))", ok, "classic address arguments are not (code_id, instance_count(storage))", fn=f,
